@@ -67,6 +67,9 @@ var exprVocabCore = []string{"1", "a", "(", ")", "[", "]", ",", "AND", "NOT", "=
 // entries are addressed with a "w:" prefix in the texts lists
 
 func vocabByText(text string) vocab {
+	if strings.HasPrefix(text, "r:") { // a word written as it is
+		return vocab{"Variable", tokenizers.Word, text[2:]}
+	}
 	if strings.HasPrefix(text, "w:") {
 		for _, v := range exprVocab {
 			if v.typ == tokenizers.Word && v.text == text[2:] {
@@ -231,6 +234,8 @@ func execC02(seg []Ev) []Ev {
 					}
 					if t.Type() == tokenizers.Quoted {
 						sb.WriteString("'" + t.Value() + "'")
+					} else if t.Type() == tokenizers.Word && strings.HasPrefix(texts[i], "r:") {
+						sb.WriteString(t.Value()) // a word written as it is (it only looks like a keyword)
 					} else if t.Type() == tokenizers.Word && !strings.HasPrefix(t.Value(), "a") {
 						sb.WriteString("\"" + t.Value() + "\"") // a quoted identifier
 					} else {
@@ -331,6 +336,22 @@ func genC02(g *Gen) {
 		}
 	}
 	rec2(nil)
+	// words that look like keywords: a letter replaced by one whose case mapping meets the keyword's letter
+	for _, kwd := range c13keywords {
+		low := strings.ToLower(kwd)
+		for i, ch := range low {
+			for _, alt := range map[rune][]rune{'s': {0x17f}, 'i': {0x131, 0x130}, 'k': {0x212a}, 'a': {0xe5}, 'e': {0xe9}}[ch] {
+				if i == 0 && alt > 0xff {
+					continue // must still start a word
+				}
+				w := "r:" + low[:i] + string(alt) + low[i+1:]
+				for _, ctx := range [][]string{{"a", w, "a"}, {"a", "NOT", w, "a"}, {w}, {"a", w, "NULL"}, {"a", "IS", w}, {w, "a"}, {"a", w, "(", "1", ")"}, {"a", "+", w}} {
+					run("words that look like keywords", "string", ctx)
+					run("words that look like keywords", "tokens", ctx)
+				}
+			}
+		}
+	}
 	// deep nesting: grouping, calls and indexing nested far beyond any fixed small bound
 	for _, d := range []int{64, 100, 200, 201, 256, 1001, 1025} {
 		if d > g.Pick(260, 2000) {
@@ -378,7 +399,8 @@ func genC02(g *Gen) {
 			}
 			seg = append(seg, Ev{"op": "parse", "entry": entry, "texts": tl})
 		}
-		bad := [][]string{{"(", "1", "+"}, {"(", "(", "(", "1", "+"}, {"a", "(", "1", ","}, {"1", "["}, {"(", "(", "a", ")"}, {"1", "1"}, {")"}, {"a", "(", "(", "(", "("}, {"NOT"}, {"(", "-"}}
+		deepBad := append(strings.Split(strings.Repeat("( ", 45), " ")[:45], "1", "+")
+		bad := [][]string{deepBad, deepBad[5:], {"(", "1", "+"}, {"(", "(", "(", "1", "+"}, {"a", "(", "1", ","}, {"1", "["}, {"(", "(", "a", ")"}, {"1", "1"}, {")"}, {"a", "(", "(", "(", "("}, {"NOT"}, {"(", "-"}}
 		n := g.Pick(300, 1300)
 		for i := 0; i < n; i++ {
 			b := bad[rr.Intn(len(bad))]
